@@ -39,7 +39,7 @@ SUB_KINDS = ["exit1", "stderr_error", "garbage", "kill_parent_after", "kill_pare
 Q_KINDS = ["exit1", "stderr_error", "garbage"]
 
 
-QUICK_BUDGET = {"cases": 600, "deadline_s": 170, "case_timeout_s": 120, "floors": {"faults_injected": 196, "second_runs_checked": 196, "kill_points": 30, "write_kills": 40, "line_faults": 50, "line_faults_fired": 40, "resubmission_histories": 60}}
+QUICK_BUDGET = {"cases": 600, "deadline_s": 170, "case_timeout_s": 120, "floors": {"faults_injected": 196, "second_runs_checked": 196, "kill_points": 30, "write_kills": 40, "line_faults": 50, "line_faults_fired": 40, "resubmission_histories": 60, "jobs_running_at_next_invocation": 60}}
 THOROUGH_FACTOR = 12  # thorough = the same workload with 12x the cases (floors scale along)
 
 
@@ -174,7 +174,7 @@ def gen_case(rng, idx, tier):
     f = dict(fl[j % WALK] if (j % WALK) < len(fl) else rng.choice(fl))
     if f["where"] == "line":
         f["nth"] = rng.randint(1, 185 * (n - (1 if pre and not pre_failed else 0)) + 40)
-    return {"sched": sched, "dag": dag, "pre": pre, "pre_failed": pre_failed, "hashing": hashing, "fault": f, "noacct": noacct}
+    return {"sched": sched, "dag": dag, "pre": pre, "pre_failed": pre_failed, "hashing": hashing, "fault": f, "noacct": noacct, "start_some": rng.randrange(1, 1 << 30) if rng.random() < 0.5 else None}
 
 
 def truth_tracked(sim, sched):
@@ -395,6 +395,13 @@ def run_case(case):
             bad = sorted(n for n in hashes if n not in truth)
             if bad:
                 res.violation("hash-without-acceptance", "spec hash recorded for %s whose submission was never accepted" % bad, **ctx)
+        # the scheduler may have STARTED some of the accepted jobs meanwhile: pending or running, they are in flight
+        if case.get("start_some"):
+            sr = random.Random(case["start_some"])
+            for jid in sorted(sim.runnable(), key=int):
+                if sr.random() < 0.6:
+                    sim.start(jid)
+                    res.mon("jobs_running_at_next_invocation")
         # ---- next invocation: status
         r2 = cli.gwf(proj.root, ["status"], env)
         if r2.rc != 0:
